@@ -1387,6 +1387,36 @@ func seqSegments(t *Terminal, v Val) []string {
 		if isNilConst(x) {
 			return nil
 		}
+	case *AllocV:
+		if x.Comment != "makeslice" {
+			break
+		}
+		ln, ok := t.St.heap["len:"+x.Key()]
+		if !ok {
+			break
+		}
+		if isConstInt(ln.val, 0) {
+			return nil // make([]T, 0, n): empty, whatever the capacity
+		}
+		// make([]T, n) filled by index stores [0..k) and one copy(a[k:], src) with n == k + len(src)
+		cs, ok := t.St.heap["copyseg:"+x.Key()]
+		if !ok {
+			break
+		}
+		k, _ := constInt(cs.val.(*TupleV).Vals[0])
+		src := cs.val.(*TupleV).Vals[1]
+		if k > 16 || !lenAddsUp(ln.val, k, src) {
+			break
+		}
+		var out []string
+		for i := int64(0); i < k; i++ {
+			cl, ok := t.St.heap[mkIndexAddr(x, intV(i), nil).Key()]
+			if !ok {
+				return []string{ap(v) + "..."}
+			}
+			out = append(out, ap(stripIface(cl.val)))
+		}
+		return append(out, seqSegments(t, src)...)
 	case *AppendV:
 		out := seqSegments(t, x.S)
 		if x.Spread {
@@ -1618,4 +1648,46 @@ func wholeCopyOf(t *Terminal, ret, arr Val) bool {
 		}
 	}
 	return true
+}
+
+// lenAddsUp: n == k + len(src), for n of the form len(X) or len(X)+c and src of the form X or X[j:].
+func lenAddsUp(n Val, k int64, src Val) bool {
+	base := func(v Val) (string, int64, bool) {
+		switch x := v.(type) {
+		case *CallV:
+			if x.Callee == "len" && len(x.Args) == 1 {
+				return x.Args[0].Key(), 0, true
+			}
+		case *BinV:
+			if x.Op == token.ADD {
+				if c, isC := constInt(x.Y); isC {
+					if l, isL := x.X.(*CallV); isL && l.Callee == "len" && len(l.Args) == 1 {
+						return l.Args[0].Key(), c, true
+					}
+				}
+				if c, isC := constInt(x.X); isC {
+					if l, isL := x.Y.(*CallV); isL && l.Callee == "len" && len(l.Args) == 1 {
+						return l.Args[0].Key(), c, true
+					}
+				}
+			}
+		}
+		return "", 0, false
+	}
+	nk, nc, ok := base(n)
+	if !ok {
+		return false
+	}
+	sk, j := src.Key(), int64(0)
+	if sl, isS := src.(*SliceV); isS && sl.Hi == nil && sl.Max == nil {
+		sk = sl.X.Key()
+		if sl.Lo != nil {
+			c, isC := constInt(sl.Lo)
+			if !isC {
+				return false
+			}
+			j = c
+		}
+	}
+	return nk == sk && nc == k-j
 }
